@@ -212,6 +212,7 @@ class Interp:
         self.self_is_struct = True
         self.stats = {"paths": 0, "loop_heads": 0, "inlined": 0, "contract_uses": {}}
         self.aligned = {}               # symbol -> modulus it is a multiple of
+        self.variant = None             # heap -> Lin: must strictly decrease from a loop head to each of its back edges
 
     # -- entry state ------------------------------------------------------------------------------
     def chain(self, ctx, syms):
@@ -637,7 +638,7 @@ class Interp:
     def _clone(self, st):
         return {"body": st["body"], "env": dict(st["env"]), "heap": dict(st["heap"]), "ctx": st["ctx"].copy(),
                 "regions": dict(st["regions"]), "trace": list(st["trace"]), "events": list(st["events"]), "sp": st["sp"],
-                "borrowed": st.get("borrowed", frozenset()), "gconst": st.get("gconst"),
+                "borrowed": st.get("borrowed", frozenset()), "gconst": st.get("gconst"), "variant0": st.get("variant0"),
                 "stack": [dict(fr, env=dict(fr["env"])) for fr in st["stack"]]}
 
     def _ty(self, body, l):
@@ -666,7 +667,16 @@ class Interp:
                     self.oblige(st, "inv", "the cursor invariant holds at the loop head of %s" % body.npath.split("::")[-1],
                                 self.chain_holds(st["ctx"], st["heap"]), body.blocks[bb]["t"].get("sp"))
                 if visits.get(key, 0) >= 1:
-                    return          # back edge: the invariant was re-established (or reported); the head was explored from a generic state
+                    # back edge: the invariant was re-established (or reported); the head was explored from a generic state
+                    if self.variant is not None and st.get("variant0") is not None:
+                        try:
+                            now = self.variant(st["heap"])
+                        except (KeyError, TypeError):
+                            now = None
+                        ok = isinstance(now, Lin) and st["ctx"].ge0(st["variant0"] - now - 1)
+                        self.oblige(st, "progress", "every iteration of the loop in %s makes progress (%s decreases: %s -> %s)"
+                                    % (body.npath.split("::")[-1], self.variant_text, st["variant0"], now), ok, body.blocks[bb]["t"].get("sp"))
+                    return
                 self.stats["loop_heads"] += 1
                 # havoc: everything the loop may change is forgotten; the invariant is all that is known
                 assigned, loop_fields = heads[bb]
@@ -684,6 +694,11 @@ class Interp:
                         st["env"].pop(l, None)
                 if st["stack"]:
                     raise RuntimeError("loop inside an inlined callee: %s" % body.npath)
+                if self.variant is not None:
+                    try:
+                        st["variant0"] = self.variant(st["heap"])
+                    except (KeyError, TypeError):
+                        st["variant0"] = None
             visits = dict(visits)
             visits[key] = visits.get(key, 0) + 1
             if visits[key] > 1 and bb not in heads:
@@ -907,6 +922,12 @@ class Interp:
             a0 = args[0]
             # `x?`: Continue(payload) for Some / Ok, Break(residual) for None
             self.store(st, t["dest"], ('enum', 0, (a0[1],)) if a0[0] in ('some', 'ok') else ('enum', 1, (('none',),)))
+            return None
+        if name.endswith("std::ops::Try>::branch") and name.startswith("<std::result::Result") and len(args) == 1 and isinstance(args[0], tuple) \
+                and args[0][0] == 'enum' and args[0][1] in (0, 1):
+            a0 = args[0]
+            # Result as a plain enum value (Ok = 0, Err = 1): Continue(payload) / Break(residual)
+            self.store(st, t["dest"], ('enum', 0, (a0[2][0] if a0[2] else self.opaque(),)) if a0[1] == 0 else ('enum', 1, (a0,)))
             return None
         if name.endswith("std::ops::FromResidual>::from_residual") and name.startswith("<std::option::Option"):
             self.store(st, t["dest"], ('none',))
